@@ -11,6 +11,11 @@ Three parts (see check/manifest.d/C05.json for what is theorem and what is testi
     checked on its own: ordered by (file, numeric line, numeric col), no duplicates.
  3. the goyang command (built from /repo) with --format tree / types on the same sets, repeated and with permuted
     arguments: stdout, stderr and exit status must be identical.
+ 2c. histories (Go command c05hist): loads with a Process / GetModule in between against the same sources loaded at once,
+    on sets whose uses statements, types and identities refer to a source that exists in several revisions.
+ 2d. source trees on disk, modules asked for by NAME through a search path with dir/... entries, the same module name in
+    several directories: the file each loaded name denotes against the extracted model (C05.lookup_fs over
+    Model/File.v; C05_lookups_perm), and all request orders against each other.
 """
 import itertools
 import json
@@ -940,6 +945,307 @@ def probe_part(res, cases, rnd, k, max_perms):
     return stats
 
 
+# ============================================================================ part 2c: histories (loads, Process / GetModule in between)
+DATES = ["2018-03-03", "2019-01-01", "2020-01-01", "2021-06-01", "2022-02-02"]
+
+
+def _g_body(k, same):
+    """the grouping g of the k-th revision: leaf x always; type/default of x and the extra nodes depend on k"""
+    if same:
+        k = 0
+    b = '    leaf x { type string;%s }\n' % ("" if k == 0 else ' default "r%d";' % k)
+    for j in range(k):
+        b += "    leaf-list y%d { type uint8; }\n" % j
+    if k >= 2:
+        b += "    container deep%d { leaf z { type int8; } }\n" % k
+    return b
+
+
+def g_regrouped(rnd):
+    """a module whose `uses` refer to groupings of ANOTHER source that exists in several revisions (import without
+    revision-date; include of a submodule; a grouping of the imported module that itself uses a grouping of a module
+    with several revisions): what a uses statement denotes is settled by the sources, not by when Process was called"""
+    variant = rnd.choice(["import", "import", "include", "chain"])
+    nrev = rnd.choice([2, 2, 3])
+    revs = sorted(rnd.sample(DATES, nrev))
+    if rnd.random() < 0.25:
+        revs[0] = None
+    same = rnd.random() < 0.15
+    users = ["  container c { uses %sg; }\n", "  list l { key x; uses %sg; }\n",
+             "  grouping mine { uses %sg; leaf own { type string; } }\n  container k { uses mine; }\n",
+             "  container tgt { }\n  augment /a:tgt { uses %sg; }\n", "  rpc op { input { uses %sg; } }\n",
+             "  choice ch { case k1 { uses %sg; } }\n", "  uses %sh;\n"]
+    files, ask = [], ["a"]
+    if variant == "import":
+        for k, r in enumerate(revs):
+            files.append(mod("p", "  grouping g {\n%s  }\n  grouping h { container in { uses g; } }\n" % _g_body(k, same), rev=r))
+        body = "".join(u % "p:" for u in rnd.sample(users, rnd.randint(1, 3)))
+        files.insert(rnd.randint(0, len(files)), mod("a", body, imports=[("p", "p")]))
+        if rnd.random() < 0.5:
+            files.append(mod("b", "  container cb { uses p:g; }\n", imports=[("p", "p")]))
+            ask.append("b")
+    elif variant == "include":
+        for k, r in enumerate(revs):
+            files.append(mod("s", "  grouping g {\n%s  }\n  grouping h { container in { uses g; } }\n" % _g_body(k, same),
+                             sub_of="a", prefix="a", rev=r))
+        body = "".join(u % "" for u in rnd.sample(users, rnd.randint(1, 3)))
+        files.insert(rnd.randint(0, len(files)), mod("a", body, includes=["s"]))
+    else:
+        for k, r in enumerate(revs[:2]):
+            files.append(mod("q", "  grouping g {\n%s  }\n" % _g_body(k, same), rev=r))
+        files.append(mod("p", "  grouping g { container via { uses q:g; } }\n  grouping h { uses g; }\n", imports=[("q", "q")]))
+        body = "".join(u % "p:" for u in rnd.sample(users[:3] + users[4:], rnd.randint(1, 2)))
+        files.insert(rnd.randint(0, len(files)), mod("a", body, imports=[("p", "p")]))
+    return dict(files=files, ask=ask, variant=variant)
+
+
+HIST_GENS = [("regrouped", g_regrouped), ("superseded", lambda rnd: dict(files=g_superseded(rnd), ask=["a"], variant="types")),
+             ("rev-norev", lambda rnd: dict(files=g_rev_norev(rnd), ask=["imp1"], variant="bare"))]
+
+
+def hist_line(files, ops, opts="-", pathspec="-"):
+    toks = ["c05hist", opts, pathspec, ",".join(ops), str(len(files))]
+    for n, t in files:
+        toks += [hx(n), hx(t)]
+    return " ".join(toks)
+
+
+def hist_canon(line, files, ops):
+    """load results per file name (as a multiset), the dump after the last Process without entry ids"""
+    if not line.startswith("{"):
+        return dict(raw=line.split(" @")[0])
+    j = json.loads(line)
+    loads = {}
+    for op, st in zip([o for o in ops if o[0] in "LR"], j["loads"]):
+        key = files[int(op[1:])][0] if op[0] == "L" else unhx(op[1:]).decode()
+        loads.setdefault(key, []).append(st)
+    return dict(loads={k: sorted(v) for k, v in loads.items()}, run=strip_ids(j["run"]), sources=j.get("sources"))
+
+
+def histories(n, ask, rnd, cap):
+    """all load orders x every place for ONE intermediate step (Process, or GetModule of a using module), some with two"""
+    out = []
+    steps = ["P"] + ["G" + hx(a) for a in ask]
+    for perm in itertools.permutations(range(n)):
+        loads = ["L%d" % i for i in perm]
+        for cut in range(1, n):
+            for st in steps:
+                out.append(loads[:cut] + [st] + loads[cut:] + ["P"])
+        if n >= 3:
+            c1 = rnd.randint(1, n - 2)
+            c2 = rnd.randint(c1 + 1, n - 1)
+            out.append(loads[:c1] + [rnd.choice(steps)] + loads[c1:c2] + [rnd.choice(steps)] + loads[c2:] + ["P"])
+    if len(out) > cap:
+        out = rnd.sample(out, cap)
+    return out
+
+
+def history_part(res, rnd, n_cases, cap):
+    cases = []
+    for name, g in HIST_GENS:
+        r2 = random.Random("hist-" + name)
+        k = n_cases if name == "regrouped" else max(2, n_cases // 3)
+        for i in range(k):
+            cases.append((name, g(r2 if i < (k + 1) // 2 else rnd)))
+    lines, index = [], []
+    for ci, (name, c) in enumerate(cases):
+        n = len(c["files"])
+        batch = ["L%d" % i for i in range(n)] + ["P"]
+        for ops in [batch, batch] + [["L%d" % i for i in reversed(range(n))] + ["P"]] + histories(n, c["ask"], rnd, cap):
+            lines.append(hist_line(c["files"], ops))
+            index.append((ci, ops))
+    tmp = tempfile.mkdtemp(prefix="c05h-")
+    try:
+        outs = lib.run_go(lines, cwd=tmp)
+    finally:
+        shutil.rmtree(tmp, ignore_errors=True)
+    stats = dict(cases=len(cases), runs=len(lines), differing_cases=0, by_variant={}, with_errors=0, crashes=0, signatures={})
+    per = {}
+    for (ci, ops), o in zip(index, outs):
+        per.setdefault(ci, []).append((ops, o))
+    reported = {}
+    for ci, (name, c) in enumerate(cases):
+        files = c["files"]
+        v = "%s/%s" % (name, c["variant"])
+        stats["by_variant"][v] = stats["by_variant"].get(v, 0) + 1
+        runs = [(ops, o, hist_canon(o, files, ops)) for ops, o in per[ci]]
+        ref_ops, ref_o, ref = runs[0]
+        if "raw" in ref:
+            stats["crashes"] += 1
+        elif ref["run"] and ref["run"]["errors"]:
+            stats["with_errors"] += 1
+        for ops, o, cn in runs[1:]:
+            if cn == ref:
+                continue
+            stats["differing_cases"] += 1
+            path, a, b = first_diff(ref, cn)
+            key = (v, re.sub(r"\[\d+\]", "[]", path)[:50])
+            stats["signatures"][str(key)] = stats["signatures"].get(str(key), 0) + 1
+            if key not in reported and len(reported) < 4:
+                reported[key] = 1
+                res.violation("the same %d sources give a different final outcome after the history %s than when loaded at once (%s): "
+                              "differ at %s: %s  vs  %s  [generator %s, files %s]" %
+                              (len(files), ",".join(ops), ",".join(ref_ops), path, json.dumps(a)[:160], json.dumps(b)[:160], v,
+                               [n for n, _ in files]),
+                              dict(kind="history", gen=v, files=files, opts="-", pathspec="-", ops_a=ref_ops, ops_b=ops, out_a=ref, out_b=cn,
+                                   diff_at=path))
+            break
+    return stats
+
+
+# ============================================================================ part 2d: modules found through a search path with dir/... entries
+def tree_layout(rnd):
+    """a source tree whose sub-directories (depth 1..3) hold the modules of several projects; common modules exist as
+    differing copies in two or more of the directories (vendored copies); every module is asked for by NAME and found
+    through the search path: ROOT/..., several dir/... entries, a mixture with plain directories, plain ones only"""
+    dirs = rnd.sample(["models", "vendor/acme", "vendor/zeta/yang", "third_party", "a-first", "zz/last", "models/sub"], rnd.randint(2, 4))
+    commons = rnd.sample(["common-types", "base-ids", "units"], rnd.randint(1, 2))
+    files, owners = [], []
+    holders = {c: set(rnd.sample(range(len(dirs)), rnd.randint(2, len(dirs)))) for c in commons}
+    if rnd.random() < 0.15:
+        holders[commons[0]] = {rnd.randrange(len(dirs))}         # control: one copy only
+    identical = rnd.random() < 0.1                                # control: all copies equal
+    for di, d in enumerate(dirs):
+        for c in commons:
+            if di in holders[c]:
+                v = 0 if identical else di
+                body = ('  typedef percent { type uint8 { range "0..%d"; } default %d; }\n  identity kind;\n%s' %
+                        (100 - 10 * v, v, "".join("  identity k%d { base kind; }\n" % j for j in range(v + 1))))
+                dated = rnd.random() < 0.15
+                rev = "2020-0%d-01" % (di + 1) if dated else None
+                text = mod(c, body, prefix="cm", rev=rev)[1]
+                files.append(("%s/%s%s.yang" % (d, c, "@" + rev if dated else ""), text))
+        for oi in range(rnd.randint(1, 2)):
+            me = "own%d%d" % (di, oi)
+            imps = [("c%d" % i, c) for i, c in enumerate(commons) if rnd.random() < 0.8] or [("c0", commons[0])]
+            body = "".join("  leaf load_%s { type %s:percent; }\n  leaf kind_%s { type identityref { base %s:kind; } }\n" % (p, p, p, p)
+                           for p, _ in imps)
+            files.append(("%s/%s.yang" % (d, me), mod(me, body, imports=imps)[1]))
+            owners.append(me)
+    tops = sorted({d.split("/")[0] for d in dirs})
+    style = rnd.choice(["root", "root", "tops", "mixed", "plain"])
+    if style == "root":
+        path = [".+"]
+    elif style == "tops":
+        path = [t + "+" for t in rnd.sample(tops, len(tops))]
+    elif style == "mixed":
+        path = [rnd.choice(dirs), ".+"] if rnd.random() < 0.5 else [".+", rnd.choice(dirs)]
+    else:
+        path = rnd.sample(dirs, len(dirs))
+    asked = rnd.sample(owners, min(len(owners), rnd.randint(2, 4)))
+    explicit = rnd.random() < 0.25
+    if explicit:
+        asked.insert(rnd.randint(0, len(asked)), commons[0])
+    return dict(files=files, path=path, asked=asked, style=style, between=not explicit)
+
+
+def hexcomps(p):
+    return "." if p == "." else "/".join(hx(c) for c in p.split("/"))
+
+
+def find_line(lay, names):
+    path = ";".join(hexcomps(e[:-1]) + "+" if e.endswith("+") else hexcomps(e) for e in lay["path"])
+    return "c05find %s %s %s" % (path, ";".join(hexcomps(f) for f, _ in lay["files"]), ",".join(hx(n) for n in names))
+
+
+def tree_orders(asked, rnd, max_perms, between=True):
+    base = [["R" + hx(a) for a in asked]]
+    for p in orders_for(len(asked), rnd, max_perms):
+        base.append(["R" + hx(asked[i]) for i in p])
+    out = [b + ["P"] for b in base]
+    # the same requests with a Process in between -- not when a module that the others import is itself asked for: once
+    # a Process has loaded it on demand, Read reports it as a duplicate (registry behaviour, C13), which is a different
+    # load result but not a different outcome
+    for b in (base[:3] if between else []):
+        cut = rnd.randint(1, len(b) - 1)
+        out.append(b[:cut] + ["P"] + b[cut:] + ["P"])
+    return out
+
+
+def tree_part(res, rnd, n_cases, max_perms):
+    cases = [tree_layout(random.Random("tree-%d" % i) if i < n_cases // 2 else rnd) for i in range(n_cases)]
+    lines, index = [], []
+    for ci, lay in enumerate(cases):
+        for ops in tree_orders(lay["asked"], rnd, max_perms, lay["between"]):
+            lines.append(hist_line(lay["files"], ops, pathspec=";".join(lay["path"])))
+            index.append((ci, ops))
+    tmp = tempfile.mkdtemp(prefix="c05t-")
+    try:
+        outs = lib.run_go(lines, cwd=tmp)
+    finally:
+        shutil.rmtree(tmp, ignore_errors=True)
+    per = {}
+    for (ci, ops), o in zip(index, outs):
+        per.setdefault(ci, []).append((ops, o))
+    stats = dict(cases=len(cases), runs=len(lines), differing_cases=0, model_mismatches=0, model_lookups=0, by_style={}, with_errors=0,
+                 duplicated_names_loaded=0, crashes=0, signatures={})
+    # the model's answer for every module name the implementation loaded in any run, and for every name asked for
+    wanted = []
+    for ci, lay in enumerate(cases):
+        names = set(lay["asked"])
+        for ops, o in per[ci]:
+            if o.startswith("{"):
+                names |= {k for k in (json.loads(o).get("sources") or {}) if "@" not in k}
+        wanted.append(sorted(names))
+    model = lib.run_ml([find_line(lay, names) for lay, names in zip(cases, wanted)])
+    reported = {}
+
+    def report(key, what, rep):
+        stats["signatures"][str(key)] = stats["signatures"].get(str(key), 0) + 1
+        if key not in reported and len(reported) < 4:
+            reported[key] = 1
+            res.violation(what, rep)
+
+    for ci, lay in enumerate(cases):
+        files = lay["files"]
+        stats["by_style"][lay["style"]] = stats["by_style"].get(lay["style"], 0) + 1
+        ans = {}
+        for n, a in zip(wanted[ci], model[ci].split()):
+            ans[n] = None if a == "-" else ("?" if a == "?" else "/".join(unhx(c).decode() for c in a.split("/")))
+        runs = [(ops, o, hist_canon(o, files, ops)) for ops, o in per[ci]]
+        ref_ops, ref_o, ref = runs[0]
+        if "raw" in ref:
+            stats["crashes"] += 1
+        elif ref["run"] and ref["run"]["errors"]:
+            stats["with_errors"] += 1
+        base = [f.rsplit("/", 1)[1].split("@")[0].replace(".yang", "") for f, _ in files]
+        stats["duplicated_names_loaded"] += sum(1 for k in (ref.get("sources") or {}) if base.count(k) > 1)
+        rep = dict(kind="tree", gen="tree/" + lay["style"], files=files, opts="-", pathspec=";".join(lay["path"]), asked=lay["asked"],
+                   model_line=find_line(lay, wanted[ci]))
+        # model vs implementation: which file each loaded module name denotes
+        bad_model = False
+        for ops, o, cn in runs:
+            for k, src in sorted((cn.get("sources") or {}).items()):
+                if "@" in k or ans.get(k) == "?":
+                    continue
+                stats["model_lookups"] += 1
+                if ans.get(k) != src:
+                    stats["model_mismatches"] += 1
+                    bad_model = True
+                    report((lay["style"], "model"),
+                           "module %s asked for by name with search path %s: the implementation took %s after the requests %s, the model "
+                           "of findFile (a function of tree, path and name) gives %s; files below ROOT: %s" %
+                           (k, lay["path"], src, [unhx(x[1:]).decode() if x != "P" else "Process" for x in ops], ans.get(k), [f for f, _ in files]),
+                           dict(rep, ops_a=ref_ops, ops_b=ops, out_a=ref, out_b=cn, module=k, model=ans.get(k), impl=src))
+                    break
+            if bad_model:
+                break
+        # the property itself: every order of the requests, same outcome
+        for ops, o, cn in runs[1:]:
+            if cn != ref:
+                stats["differing_cases"] += 1
+                path, a, b = first_diff(ref, cn)
+                report((lay["style"], "orders", re.sub(r"\[\d+\]", "[]", path)[:40]),
+                       "the same modules asked for by name in two orders (%s / %s) with search path %s give different outcomes: differ at "
+                       "%s: %s  vs  %s; files below ROOT: %s" %
+                       ([unhx(x[1:]).decode() if x != "P" else "Process" for x in ref_ops],
+                        [unhx(x[1:]).decode() if x != "P" else "Process" for x in ops], lay["path"], path,
+                        json.dumps(a)[:160], json.dumps(b)[:160], [f for f, _ in files]),
+                       dict(rep, ops_a=ref_ops, ops_b=ops, out_a=ref, out_b=cn, diff_at=path))
+                break
+    return stats
+
+
 # ============================================================================ part 3: the command
 def build_cli():
     os.makedirs(lib.WORK, exist_ok=True)
@@ -1120,10 +1426,12 @@ def run(res, tier, seed, proof):
     k, max_perms = (3, 8) if quick else (5, 23)
     mm = metamorphic(res, cases, rnd, k, max_perms)
     pr = probe_part(res, cases[:230] if quick else cases[:4000], rnd, 3, 2)
+    hi = history_part(res, rnd, 12 if quick else 150, 40 if quick else 200)
+    tr = tree_part(res, rnd, 30 if quick else 600, 6 if quick else 23)
     cli_cases = cases[:118] if quick else cases[:1500]
     cli = cli_part(res, cli_cases, rnd, 3 if quick else 4, 4 if quick else 8)
     cov = dict(
-        evaluations=es_evals + mm["runs"] + pr["runs"] + cli["invocations"],
+        evaluations=es_evals + mm["runs"] + pr["runs"] + hi["runs"] + tr["runs"] + tr["model_lookups"] + cli["invocations"],
         distinct_nontrivial=len({json.dumps(f) for _, f, _ in cases if len(f) > 1}) + es_stats["distinct_sets"],
         rule="(1) errorSort: lists of 0..40 error texts (positioned with canonical numerals; text-only; unpositioned messages of "
              "goyang; odd numerals 01/+1/-0/2^63/non-numeric; mixtures; duplicates; shuffles; the _refuted witnesses) through "
@@ -1144,8 +1452,19 @@ def run(res, tier, seed, proof):
              "imports.  (2b) the "
              "c05probe command on the same sets (incl. bits sharing a position): Entry.Print twice, every enumeration/bits type asked twice and ValueMap against Name, FindModuleByNamespace twice per namespace, GetModule twice and "
              "after flipping IgnoreDeviateNotSupported against fresh sets; compared inside one run, across repeats and load orders.  "
+             "(2c) histories (c05hist): sets in which a uses statement refers to a grouping of a source with 2-3 revisions (import "
+             "without revision-date, include of a submodule, a grouping of the import that uses a grouping of a module with two "
+             "revisions; uses in container/list/own grouping/augment/rpc input/case/module top; revisions with equal groupings as a "
+             "control) and the superseded / rev-norev sets: every load order x every place for one intermediate Process or "
+             "GetModule(using module), some with two, against loading everything at once: same final dump.  (2d) search-path trees: "
+             "2-4 directories of depth 1-3 below one root, common modules as differing copies in several of them (some in files "
+             "name@date.yang; one copy / equal copies as controls), own modules importing them, search path ROOT/... | several "
+             "dir/... | dir/... mixed with a plain directory | plain directories; the own modules (sometimes a common one) are asked "
+             "for by name in all (capped) orders, some with a Process in between: the file every loaded module name denotes is "
+             "compared with the extracted model (C05.lookup_fs over Model/File.v: a function of tree, path and name, "
+             "C05_lookups_perm), and all orders must give the same dump and the same source files.  "
              "non-trivial = more than one file / distinct set of error texts",
-        errorsort=es_stats, metamorphic=mm, probe=pr, cli=cli, k_repeats=k, max_perms=max_perms,
+        errorsort=es_stats, metamorphic=mm, probe=pr, histories=hi, search_path_trees=tr, cli=cli, k_repeats=k, max_perms=max_perms,
         samples=[dict(gen=g, files=[n for n, _ in f]) for g, f, _ in cases[:3]])
     assumptions = [
         "reflect.DeepEqual on two error values of the same dynamic type built by errors.New / fmt.Errorf without %w is equality of "
@@ -1158,6 +1477,13 @@ def run(res, tier, seed, proof):
         "the order dependences found earlier (missing imports, several modules deviating or augmenting one node, two revisions "
         "of a deviating module, the command printing one of two revisions, the order used by errorSort) are repaired in /repo: "
         "any recurrence is a VIOLATION",
+        "search-path trees: the harness process runs in an empty current directory, so findFile never opens a file as named and "
+        "never extends ms.Path (Spec/C05.v lookup_fs takes an empty current directory); every regular file is readable; "
+        "ioutil.ReadDir lists a directory in byte order of the names (Model/File.v readDirAll).  Files named by path, and "
+        "goyang -p (which expands a tree into plain directories before loading), are not part of this leg",
+        "histories with several revisions of one module are outside the resolver model (Model/Schema.v has no revisions): the "
+        "oracle is the implementation itself on the same sources loaded at once (any order), which the property says is the "
+        "outcome of every history",
     ]
     return cov, assumptions
 
@@ -1213,6 +1539,26 @@ def replay(rep, res):
         for x, o in seen.items():
             print("order", o, "->", x[:500])
         return 1 if (bad or len(seen) > 1) else 0
+    if kind in ("history", "tree"):
+        tmp = tempfile.mkdtemp(prefix="c05h-")
+        try:
+            opss = [rep["ops_a"], rep["ops_b"]] * 5
+            outs = lib.run_go([hist_line(files, ops, rep.get("opts", "-"), rep.get("pathspec", "-")) for ops in opss], cwd=tmp, shards=1)
+        finally:
+            shutil.rmtree(tmp, ignore_errors=True)
+        seen, bad = {}, False
+        for ops, o in zip(opss, outs):
+            seen.setdefault(json.dumps(hist_canon(o, files, ops), sort_keys=True), ops)
+        if kind == "tree" and rep.get("module"):
+            m = lib.run_ml([rep["model_line"]])[0]
+            print("model:", m)
+            for s_ in seen:
+                if (json.loads(s_).get("sources") or {}).get(rep["module"]) != rep.get("model"):
+                    bad = True
+        for s_, ops in seen.items():
+            j = json.loads(s_)
+            print("history", ",".join(ops), "-> sources", j.get("sources"), "run", json.dumps(j.get("run", j))[:600])
+        return 1 if (len(seen) > 1 or bad) else 0
     if kind in ("metamorphic", "errlist"):
         tmp = tempfile.mkdtemp(prefix="c05-")
         try:
